@@ -246,6 +246,23 @@ theorem proc_refines (env : Env) (f : Facts) (hf : FactsOK f) (m : Mode) :
         | none => rfl
         | some x => by_cases hp : c.test.pred x = true <;> simp [hp]
       · by_cases hp : c.test.pred d = true <;> simp [hp]
+  | .pre ps inner, tag, fl, path, v, d, st, he, hc => by
+      have hc : fl.canCatch = false := by simpa [Schema.isPrim] using hc
+      have ih := fun v d st => proc_refines env f hf m inner tag fl path v d st he (Or.inr hc)
+      unfold proc Spec.proc
+      simp only [addIssue_clean _ _ _ hc]
+      cases m <;> simp only
+      · cases ps.accept v
+        · rfl
+        · simp only [↓reduceIte]
+          rcases hr : ps.run v with ⟨v', e⟩
+          cases e with
+          | none => simp only [ih]
+          | some e => rfl
+      · rcases hr : ps.runD d with ⟨d', e⟩
+        cases e with
+        | none => simp only [ih]
+        | some e => rfl
 theorem procKey_refines (env : Env) (f : Facts) (hf : FactsOK f) (m : Mode) :
     ∀ (fs : Fields) (key : String) (tag : Option String) (prov : Prov) (sub : Flags) (path : List String)
       (d : DVal) (st : St),
